@@ -61,12 +61,23 @@ package local
 //@     invariant len(subStates) == len(parentTx.State.Locked) && fresh(arr(subStates)) && off(subStates) == 0
 //@     invariant forall k int :: 0 <= k && k < $i ==> subStateOK(r, parent, parentTx.State.Locked[k].ID, subStates[k])
 
+// onlyAt(r, l, i, n): no other position below n of the locked list refers to the same watched channel as position i.
+//@ pred onlyAt(r *registry, l []channel.SubAlloc, i int, n int) = forall k int :: 0 <= k && k < n && k != i ==> watched(r, l[k].ID) != watched(r, l[i].ID)
+
 // registerDispute registers exactly that tree, once, and records the registered versions.
 //@ func registerDispute
 //@   requires r != nil && registerer != nil && parentCh != nil && parentCh.params != nil && parentCh.archivedSubChStates != nil
 //@   modifies every(parentCh.registeredVersion)
+// after a successful registration every watched sub-channel remembers the version of ITS OWN transaction that was registered
+// (the refutation decision for later events of that sub-channel compares against it); stated for sub-channels that occur once
+//@   ensures result == nil ==> forall i int :: 0 <= i && i < len(latest(parentCh.txRetriever).State.Locked) && watched(r, latest(parentCh.txRetriever).State.Locked[i].ID) != nil &&
+//@           onlyAt(r, latest(parentCh.txRetriever).State.Locked, i, len(latest(parentCh.txRetriever).State.Locked)) ==>
+//@           watched(r, latest(parentCh.txRetriever).State.Locked[i].ID).registeredVersion == latest(watched(r, latest(parentCh.txRetriever).State.Locked[i].ID).txRetriever).State.Version
 //@   loop 1
-//@     invariant len(subStates) == len(parentTx.State.Locked) && forall k int :: 0 <= k && k < len(subStates) ==> subStateOK(r, parentCh, parentTx.State.Locked[k].ID, subStates[k])
+//@     invariant len(subStates) == len(parentTx.State.Locked) && parentTx.State == latest(parentCh.txRetriever).State && forall k int :: 0 <= k && k < len(subStates) ==> subStateOK(r, parentCh, parentTx.State.Locked[k].ID, subStates[k])
+//@     invariant forall k int :: 0 <= k && k < $i && watched(r, parentTx.State.Locked[k].ID) != nil && onlyAt(r, parentTx.State.Locked, k, $i) ==>
+//@       watched(r, parentTx.State.Locked[k].ID).registeredVersion == latest(watched(r, parentTx.State.Locked[k].ID).txRetriever).State.Version
+
 //@   callsite channel.Registerer.Register : !arg1.Secondary && arg1.Params == parentCh.params && arg1.Tx.State == latest(parentCh.txRetriever).State && arg1.Tx.Sigs == latest(parentCh.txRetriever).Sigs &&
 //@     len(arg2) == len(arg1.Tx.State.Locked) && forall i int :: 0 <= i && i < len(arg2) ==> subStateOK(r, parentCh, arg1.Tx.State.Locked[i].ID, arg2[i])
 
